@@ -7,9 +7,9 @@ CONSTANTS
   KVals <- KZ
   Orders <- OrdOne
   FullOrder = TRUE
-  Points <- PtsZero
+  Points <- PtsZ1
   Feeds <- FdZero
-  PhaseMaps <- Ph1
+  PhaseMaps <- Ph2
   ReKVals <- NoReK
   MaxHist = 0
   NameMap <- NmId
